@@ -196,6 +196,7 @@ type Frame struct {
 	ordinal      map[ssa.Instruction]int
 	frameAssumed bool   // frame obligations are assumed (proved by another contract of the same function)
 	callLines    [2]int // lines holding the assumed postconditions of the most recent call
+	pendingArgs  []Val
 	callPre      *State // state just before the most recent call (at(call, e) in 'after call' ghost blocks)
 }
 
